@@ -8,9 +8,10 @@ cd "$(dirname "$0")/.."
 id="$1"; ddir="$2"; rx="$3"; shift 3
 src=${SEED_SRC:-/tmp/seed}
 out=seeded/$id${SEED_SUFFIX:-}; mkdir -p "$out"
-cp $src/$id-patch.diff "$out/patch.diff"; cp $src/$id-demo_test.go "$out/demo_test.go"; cp $src/$id-report.md "$out/agent-report.md" 2>/dev/null
+pfx=$id${SEED_VARIANT:+-$SEED_VARIANT}   # round 4: two changes per property, files <id>-A-..., <id>-B-...
+cp $src/$pfx-patch.diff "$out/patch.diff"; cp $src/$pfx-demo_test.go "$out/demo_test.go"; cp $src/$pfx-report.md "$out/agent-report.md" 2>/dev/null
 log="$out/confirm.log"; : > "$log"
-wt=/tmp/sc-$id
+wt=/tmp/sc-$id${SEED_VARIANT:-}
 git -C /repo worktree remove --force $wt 2>/dev/null; git -C /repo worktree add -q --detach $wt HEAD
 ( cd $wt
   git apply "$OLDPWD/$out/patch.diff" || { echo "PATCH DOES NOT APPLY to $(git rev-parse --short HEAD)"; exit 1; }
